@@ -35,7 +35,6 @@
 //   C13.mip.<what>, C15.mip.<what>
 #include "pplx.hh"
 #include <memory>
-#include <sys/resource.h>
 
 using namespace pplx;
 
@@ -126,9 +125,9 @@ struct Ref {
   int sat;       // 1 / 0 / -1
   Q val;         // optimum of the max-sense homogeneous objective (st == 1)
   Vec x;         // optimal point (st == 1) or feasible point (sat == 1)
-  int lp_st; Q lp_val;
+  int lp_st; Q lp_val; bool lp_fractional;   // the reference's relaxation optimum is fractional on an integer variable
   std::string how, region;
-  Ref() : st(-1), sat(-1), lp_st(-1) {}
+  Ref() : st(-1), sat(-1), lp_st(-1), lp_fractional(false) {}
 };
 
 // best-first branch&bound over RefLP. 1: found (optimal unless feas_only), 0: no integer point, -1: node cap
@@ -159,7 +158,7 @@ int ref_bb(int n, const Sys& S, const std::vector<int>& I, const Vec& oa, bool f
 Ref ref_solve(int n, const Sys& S, const std::set<int>& ints, const Vec& oa) {
   Ref R; R.how = "lp"; R.region = ints.empty() ? "lp" : "mip";
   ref::LPResult r0 = ref::lp_max_closed(n, S, oa);
-  R.lp_st = (int) r0.status; if (r0.status == ref::OPTIMAL) R.lp_val = r0.value;
+  R.lp_st = (int) r0.status; if (r0.status == ref::OPTIMAL) { R.lp_val = r0.value; for (std::set<int>::const_iterator i = ints.begin(); i != ints.end(); ++i) if (!integral(r0.x[*i])) R.lp_fractional = true; }
   if (r0.status == ref::INFEASIBLE) { R.st = 0; R.sat = 0; R.region += "-relaxation-infeasible"; return R; }
   if (ints.empty()) {
     R.sat = 1;
@@ -463,7 +462,7 @@ std::string state_word(const MIP_Problem& m) {
 }
 
 // ---------- random arguments ----------
-int g_maxdim = 3;
+int g_maxdim = 3, g_box = 4;
 Constraint rand_row(const Prob& D) {
   int n = D.n; int k = rnd(0, 99);
   if (n > 0 && k < 18) { Variable v(rnd(0, n - 1)); int c = rnd(0, 5); return k < 9 ? Constraint(v >= (coin(70) ? 0 : -c)) : Constraint(v <= c); }                 // sign restriction / bound
@@ -473,9 +472,14 @@ Constraint rand_row(const Prob& D) {
     if (h == 1) return c.is_equality() ? Constraint(2 * e == 0) : Constraint(3 * e >= 0);
     if (h == 2) return Constraint(e + rnd(-3, 3) >= 0);
     if (h == 3) return Constraint(-e + rnd(-2, 4) >= 0);
-    return Constraint(e == rnd(0, 2));
+    return coin(60) ? Constraint(e == 0) : Constraint(e == rnd(-1, 2));
   }
-  if (k < 38) { Linear_Expression e; e += rnd(-2, 4); return coin(25) ? Constraint(e == 0) : Constraint(e >= 0); }                                           // zero row: tautology or contradiction
+  if (k < 38) { Linear_Expression e; bool contra = coin(25); if (coin(30)) { e += contra ? rnd(1, 3) : 0; return Constraint(e == 0); } e += contra ? -rnd(1, 3) : rnd(0, 4); return Constraint(e >= 0); }                                           // zero row: tautology or contradiction
+  if (!D.ints.empty() && k < 56) {                                                                                                                           // a cut through the integer grid: fractional vertices force branching
+    static const int cf[8] = { 2, 3, -2, -3, 5, -5, 2, 3 }; Linear_Expression e; std::vector<int> I(D.ints.begin(), D.ints.end());
+    e += cf[rnd(0, 7)] * Variable(I[rnd(0, (int) I.size() - 1)]); if (coin(70)) e += cf[rnd(0, 7)] * Variable(rnd(0, n - 1)); e += 2 * rnd(-4, 4) + 1;
+    return coin(15) ? Constraint(e == 0) : Constraint(e >= 0);
+  }
   Linear_Expression e; for (int i = 0; i < n; ++i) if (!coin(35)) e += small_coeff(3) * Variable(i); e += rnd(-5, 5);
   int r = rnd(0, 9); return r < 2 ? Constraint(e == 0) : r < 6 ? Constraint(e >= 0) : Constraint(e <= 0);
 }
@@ -531,9 +535,10 @@ void check_ok(Slot& s, const std::string& after) {
   checked(); bool ok = false; std::string threw;
   try { ok = s.m->OK(); } catch (const std::exception& e) { threw = e.what(); }
   if (ok) return;
-  std::string cls = !threw.empty() ? ":throws" : after == "add_to_integer_space_dimensions" ? ":cached-point-not-integral" : "";
+  bool partial = state_word(*s.m).compare(0, 21, "PARTIALLY_SATISFIABLE") == 0;
+  std::string cls = !threw.empty() ? ":throws" : after != "add_to_integer_space_dimensions" ? "" : partial ? ":cached-point-not-integral" : ":status-not-downgraded";
   violation("C06.ok." + after + cls, (threw.empty() ? "OK() is false after " : "OK() throws (" + threw + ") after ") + after + "; state " + state_word(*s.m) + "; " + show(s.D));
-  if (after != "add_to_integer_space_dimensions") throw Stop();
+  if (after != "add_to_integer_space_dimensions" || !partial) throw Stop();
   s.skip_ok = true;   // the state itself is legitimate: go on, without consulting OK() until the problem is resolved
 }
 // "" or the differing field; tolerant of (already reported) extra branching rows
@@ -591,7 +596,7 @@ Mut rand_mutator(const Slot& s, int intmode, std::vector<Mut>& prelude) {
       for (int i = 0; i < D.n; ++i) if (coin(45)) { mu.vs.insert(i); o << str(Variable(i)) << " "; } o << "})"; mu.text = o.str();
       if (intmode == 1) {   // most integer variables are explicitly boxed so that the enumeration oracle is complete
         for (std::set<int>::const_iterator i = mu.vs.begin(); i != mu.vs.end(); ++i) if (!D.ints.count(*i)) {
-          Mut b; b.k = 1; b.name = "add_constraints"; b.m = 0; b.mode = MAXIMIZATION; b.pricing = 0; b.cons.push_back(Variable(*i) >= -rnd(0, 4)); b.cons.push_back(Variable(*i) <= rnd(0, 4));
+          Mut b; b.k = 1; b.name = "add_constraints"; b.m = 0; b.mode = MAXIMIZATION; b.pricing = 0; b.cons.push_back(Variable(*i) >= -rnd(0, g_box)); b.cons.push_back(Variable(*i) <= rnd(0, g_box));
           b.text = "add_constraints({" + str(b.cons[0]) + ", " + str(b.cons[1]) + "})"; prelude.push_back(b);
         }
       }
@@ -624,10 +629,10 @@ void run_query_step(Slot& s, int q, const std::string& pre) {
   if (q != Q_EVAL) s.skip_ok = false;   // the problem has been resolved: OK() must hold again
   check_ok(s, QN[q]);
   check_accessors(s, "C06.accessor.", std::string("after ") + QN[q]);
-  if (!check_answer(a0, q, s.D, O, "incremental problem", &evalpt)) throw Stop();
-  if (q == Q_EVAL) { Ans a1 = run_query(c, q, &evalpt); checked(); if (!same_answer(a0, a1)) { violation("C13.mip.copy_answer_differs.evaluate_objective_function", "copy: " + a1.text(q) + " original: " + a0.text(q)); throw Stop(); } }
+  if (q == Q_EVAL) { if (!check_answer(a0, q, s.D, O, "incremental problem", &evalpt)) throw Stop(); Ans a1 = run_query(c, q, &evalpt); checked(); if (!same_answer(a0, a1)) { violation("C13.mip.copy_answer_differs.evaluate_objective_function", "copy: " + a1.text(q) + " original: " + a0.text(q)); throw Stop(); } }
   else {
     if (O.R.st == 1 && O.R.lp_st == 1 && O.R.val != O.R.lp_val) hx::count("reach.integrality_gap");
+    if (O.R.lp_fractional) hx::count("reach.fractional_relaxation");
     // (iii) fresh problems from the same final data
     Full ff[6]; std::string fname[6];
     for (int k = 0; k < 6; ++k) {
@@ -642,13 +647,15 @@ void run_query_step(Slot& s, int q, const std::string& pre) {
       checked(); if (!same_answer(af, implied(ff[k], q))) { violation(std::string("C06.status.") + QN[q] + ":changes-after-solve", fname[k] + ": " + QN[q] + " -> " + af.text(q) + " before and " + implied(ff[k], q).text(q) + " after solve(); " + show(s.D)); throw Stop(); }
       checked(); if (!same_answer(a0, af)) { violation(std::string("C06.incremental_vs_fresh.") + PVN[p], std::string(QN[q]) + " [" + stw + "]: incremental " + a0.text(q) + ", " + fname[k] + " " + af.text(q) + "; " + show(s.D)); throw Stop(); }
     }
+    // the incremental answer itself against the reference (reached only when every fresh problem agrees with it)
+    if (!check_answer(a0, q, s.D, O, "incremental problem", &evalpt)) throw Stop();
     for (int k = 1; k < 6; ++k) { checked(); if (ff[k].st != ff[0].st || (ff[0].st == 1 && ff[k].val != ff[0].val)) { violation(std::string("C06.incremental_vs_fresh.") + PVN[k % 3], "fresh problems disagree among themselves: " + fname[0] + " " + STN[ff[0].st] + ", " + fname[k] + " " + STN[ff[k].st] + "; " + show(s.D)); throw Stop(); } }
     // the pre-query copy answers like the original, then is solved completely: still the same as fresh
     Ans a1 = run_query(c, q, &evalpt); checked();
     if (!same_answer(a0, a1)) { violation(std::string("C13.mip.copy_answer_differs.") + QN[q], "copy: " + a1.text(q) + " original: " + a0.text(q) + " [" + stw + "]; " + show(s.D)); throw Stop(); }
     Full fc = full_answer(c);
-    if (!check_full(fc, s.D, O, "copy of the incremental problem")) throw Stop();
     checked(); if (fc.st != ff[0].st || (fc.st == 1 && fc.val != ff[0].val)) { std::ostringstream o; o << "complete solve of (a copy of) the incremental problem [" << stw << " then " << QN[q] << "]: " << STN[fc.st]; if (fc.has_val) o << " " << fc.val; o << "; fresh: " << STN[ff[0].st]; if (ff[0].has_val) o << " " << ff[0].val; o << "; " << show(s.D); violation("C06.incremental_vs_fresh.float", o.str()); throw Stop(); }
+    if (!check_full(fc, s.D, O, "copy of the incremental problem")) throw Stop();
     hx::count(std::string("status.") + O.kind() + "." + STN[ff[0].st]);
   }
   if (s.twin) {
@@ -709,7 +716,7 @@ std::string hang_class(const Prob& D) {
 
 void run_case(uint64_t) {
   const std::string profile = hx::opt().profile;
-  g_maxdim = hx::opt().thorough ? 4 : 3;
+  g_maxdim = hx::opt().thorough ? 4 : 3; g_box = hx::opt().thorough ? 6 : 4;
   g_budget = (unsigned long long) hx::opt().geti("budget", 30000000);
   g_bb_cap = (unsigned) hx::opt().geti("bbcap", 300);
   g_enum_cap = hx::opt().geti("enumcap", 4096);
@@ -720,15 +727,24 @@ void run_case(uint64_t) {
   try {
     // constructors
     for (int i = 0; i < 2; ++i) {
-      Slot& s = pool[i]; Prob& D = s.D; D.n = coin(4) ? 0 : rnd(1, g_maxdim); int how = rnd(0, 3); if (intmode != 0 && coin(40)) how = 2; std::ostringstream o; o << "#" << i << " = ";
-      if (i == 1 || how == 0) { o << "MIP_Problem(" << D.n << "); "; tr(o.str()); s.m.reset(new MIP_Problem(D.n)); }
+      Slot& s = pool[i]; Prob& D = s.D; D.n = coin(4) ? 0 : rnd(1, g_maxdim); int how = rnd(0, 3); if (intmode != 0 && i == 0 && coin(65)) how = 2; std::ostringstream o; o << "#" << i << " = ";
+      if (i == 0 && intmode == 1 && coin(25)) {
+        // knapsack-like start: all variables integer in [0,U], positive rows, positive objective: a real branch&bound tree
+        D.n = rnd(2, g_maxdim); int rows = rnd(1, 3);
+        for (int j = 0; j < D.n; ++j) { D.ints.insert(j); D.cs.push_back(Variable(j) >= 0); D.cs.push_back(Variable(j) <= rnd(2, g_box + 1)); }
+        for (int r = 0; r < rows; ++r) { Linear_Expression e; for (int j = 0; j < D.n; ++j) e += rnd(1, 7) * Variable(j); D.cs.push_back(coin(12) ? Constraint(e == rnd(5, 24)) : Constraint(e <= rnd(5, 30))); }
+        bool neg = coin(35); for (int j = 0; j < D.n; ++j) D.obj += (neg ? -1 : 1) * rnd(1, 9) * Variable(j); D.mode = neg ? MINIMIZATION : MAXIMIZATION; if (coin(20)) D.mode = D.mode == MAXIMIZATION ? MINIMIZATION : MAXIMIZATION;
+        o << "MIP_Problem(" << D.n << ", first, last, int_vars, obj, mode) with " << show(D) << "; "; tr(o.str()); hx::count("start.knapsack");
+        s.m.reset(new MIP_Problem(D.n, D.cs.begin(), D.cs.end(), vset(D.ints), D.obj, D.mode));
+      }
+      else if (i == 1 || how == 0) { o << "MIP_Problem(" << D.n << "); "; tr(o.str()); s.m.reset(new MIP_Problem(D.n)); }
       else {
         int c = rnd(0, 4); for (int j = 0; j < c; ++j) D.cs.push_back(rand_row(D)); D.obj = rand_obj(D.n); D.mode = coin() ? MAXIMIZATION : MINIMIZATION;
         if (how == 1) {
           Constraint_System cs; for (size_t j = 0; j < D.cs.size(); ++j) cs.insert(D.cs[j]); o << "MIP_Problem(" << D.n << ", cs, obj, mode) with " << show(D) << "; "; tr(o.str());
           s.m.reset(new MIP_Problem(D.n, cs, D.obj, D.mode));
         } else {
-          if (how == 2 && intmode != 0) for (int j = 0; j < D.n; ++j) if (coin(55)) { D.ints.insert(j); if (intmode == 1) { D.cs.push_back(Variable(j) >= -rnd(0, 4)); D.cs.push_back(Variable(j) <= rnd(0, 4)); } }
+          if (how == 2 && intmode != 0) for (int j = 0; j < D.n; ++j) if (coin(55)) { D.ints.insert(j); if (intmode == 1) { D.cs.push_back(Variable(j) >= -rnd(0, g_box)); D.cs.push_back(Variable(j) <= rnd(0, g_box)); } }
           o << "MIP_Problem(" << D.n << ", first, last, " << (how == 2 ? "int_vars, " : "") << "obj, mode) with " << show(D) << "; "; tr(o.str());
           if (how == 2) s.m.reset(new MIP_Problem(D.n, D.cs.begin(), D.cs.end(), vset(D.ints), D.obj, D.mode));
           else s.m.reset(new MIP_Problem(D.n, D.cs.begin(), D.cs.end(), D.obj, D.mode));
@@ -747,8 +763,11 @@ void run_case(uint64_t) {
       if (s.twin && ++s.twin_age > 6) s.twin.reset();
       if (kind < w_mut) {
         std::vector<Mut> prelude; Mut mu = rand_mutator(s, intmode, prelude);
+        bool solved_before = state_word(*s.m).find("+init") != std::string::npos;
         for (size_t i = 0; i < prelude.size(); ++i) run_mutator(s, prelude[i], pre);
         run_mutator(s, mu, pre);
+        // the incremental path proper: a mutator on an already solved problem, queried at once
+        if (solved_before && mu.k != 6 && coin(45)) { int r = rnd(0, 99); run_query_step(s, r < 35 ? Q_SOLVE : r < 55 ? Q_SAT : r < 70 ? Q_FEAS : r < 85 ? Q_OPTPT : Q_OPTVAL, pre); hx::count("incremental_requery"); }
       }
       else if ((kind -= w_mut) < w_query) {
         int r = rnd(0, 99); int q = r < 32 ? Q_SOLVE : r < 52 ? Q_SAT : r < 65 ? Q_FEAS : r < 78 ? Q_OPTPT : r < 90 ? Q_OPTVAL : Q_EVAL;
@@ -777,14 +796,5 @@ void run_case(uint64_t) {
 } // namespace
 
 int main(int argc, char** argv) {
-  // PPL's branch&bound recurses once per branching level: give the (logical-time bounded) recursion room.
-  struct rlimit rl;
-  if (!getenv("MIPDIFF_STACK_SET") && getrlimit(RLIMIT_STACK, &rl) == 0) {
-    rlim_t want = 1024UL * 1024 * 1024;
-    if (rl.rlim_cur != RLIM_INFINITY && rl.rlim_cur < want && (rl.rlim_max == RLIM_INFINITY || rl.rlim_max >= want)) {
-      rl.rlim_cur = want;
-      if (setrlimit(RLIMIT_STACK, &rl) == 0) { setenv("MIPDIFF_STACK_SET", "1", 1); execv("/proc/self/exe", argv); }
-    }
-  }
   return hx::main_loop(argc, argv, run_case, std::function<void()>());
 }
